@@ -1499,3 +1499,20 @@ Proof.
   - intro tail. reflexivity.
   - intros k H. simpl in H. do 4 (destruct k as [|k]; [reflexivity|]). lia.
 Qed.
+
+(* ---------- witness: the lossy query of the code before fix 635f618 ---------- *)
+
+(* a pair survives url.ParseQuery only without ';' (59) in its value *)
+Definition wit_parses (kv : str * qval) : bool :=
+  match snd kv with VS v => negb (contains 59 v) | VN _ => true end.
+
+(* the registry continues with token=p;b; with a page size configured the request built by
+   the old code has lost the cursor (the registry starts again from the top), the fixed code
+   keeps it; without a page size both forward the link untouched *)
+Lemma lossy_query_refuted :
+  let link := mkUrl (b "/v2/r/tags/list") [(b "token", VS (b "p;b")); (b "x", VS (b "1"))] in
+  let cu := CToken (b "token") (b "p;") in
+  cursor_read cu (u_query (mk_request_prefix wit_parses (mkCfg KTags 2 0 []) link [])) = [] /\
+  cursor_read cu (u_query (mk_request (mkCfg KTags 2 0 []) link [])) = b "b" /\
+  mk_request_prefix wit_parses (mkCfg KTags 0 0 []) link [] = link.
+Proof. vm_compute. repeat split. Qed.
